@@ -311,7 +311,7 @@ func (g *Gen) paintLine(w int, promptW int) string {
 
 type c04X struct {
 	IdleW int `json:"idle_w,omitempty"` // the terminal gets this width between the first and the second Readline call
-	Calls int `json:"calls,omitempty"` // Readline calls on the one Shell (no resize between them)
+	Calls int `json:"calls,omitempty"`  // Readline calls on the one Shell (no resize between them)
 }
 
 // genC04TypeAheadThenNewPrompt: a whole line and Return typed ahead (the bytes reach whatever read is open, the
